@@ -212,6 +212,16 @@ impl TransportVisitor for V {
                 op!("poll#2", s.poll(|e, _| Ok(Some(e))));
                 op!("poll#3", s.poll(|e, _| Ok(Some(e))));
                 op!("credit_update", s.credit_update(&ci));
+                // Packets the caller's handler rejects, and packets too short to decode: the
+                // buffer goes back to the device, which must be told like for any other.
+                fill(0, &resp);
+                op!("poll(handler error)", s.poll(|_, _| Err(virtio_drivers::Error::InvalidParam)));
+                fill(0, &resp[..7]);
+                op!("poll(undecodable)", s.poll(|e, _| Ok(Some(e))));
+                fill(0, &resp);
+                fill(0, &resp);
+                op!("poll(handler error)#2", s.poll(|_, _| Err(virtio_drivers::Error::InvalidParam)));
+                op!("poll#4", s.poll(|e, _| Ok(Some(e))));
             }
             AnyDriver::Sound(s) => {
                 use virtio_drivers::device::sound::{PcmFeatures, PcmFormat, PcmRate};
@@ -226,6 +236,11 @@ impl TransportVisitor for V {
                 fill(1, &[0, 0x11, 0, 0, 1, 0, 0, 0]);
                 op!("latest_notification", s.latest_notification());
                 op!("pcm_stop", s.pcm_stop(0));
+                // An event too short to decode: its buffer is returned to the device all the same.
+                fill(1, &[0, 0x11, 0]);
+                op!("latest_notification(undecodable)", s.latest_notification());
+                fill(1, &[0, 0x11, 0, 0, 3, 0, 0, 0]);
+                op!("latest_notification#2", s.latest_notification());
             }
             AnyDriver::P9(p) => {
                 let mut resp = [0u8; 32];
